@@ -137,6 +137,19 @@ Theorem C19_skip_empty_refuted :
     /\ ~ In dg (snd (lint_skip_empty c rt cfg [])).
 Proof. exact skip_empty_refuted. Qed.
 
+(* Closing names (`end record t`, `end protected [body] t`, `end units t`, `end component c`,
+   `end function f` ...) are not events of the traversal: they are not references.  If the traversal
+   reported the closing name as a reference to the declaration itself (seeded change C19-m7), a
+   declaration written with its closing name would never be reported. *)
+Theorem C19_self_reference_hides : forall g d,
+  ~ In d (find_unused_declarations (with_self_reference g d)).
+Proof. exact self_reference_hides. Qed.
+
+Theorem C19_closing_name_as_reference_refuted :
+  exists g d, In d (find_unused_declarations g)
+              /\ ~ In d (find_unused_declarations (with_self_reference g d)).
+Proof. exact closing_name_as_reference_refuted. Qed.
+
 (* Config::append: when layered configurations define the same library, the LAST definition decides
    is_third_party (and hence whether the library is linted). *)
 Theorem C19_config_append_last_wins :
@@ -203,6 +216,8 @@ Print Assumptions C19_stale_cache_refuted.
 Print Assumptions C19_nameonly_pruning_refuted.
 Print Assumptions C19_noop_round_exact.
 Print Assumptions C19_skip_empty_refuted.
+Print Assumptions C19_self_reference_hides.
+Print Assumptions C19_closing_name_as_reference_refuted.
 Print Assumptions C19_config_append_last_wins.
 Print Assumptions C19_config_append_keepflag_refuted.
 Print Assumptions C19_hyps_satisfiable.
